@@ -600,7 +600,7 @@ def signature(case, res):
 def make_cases(ctx):
     cases = corpus()
     n_corpus = len(cases)
-    n_rand = ctx.scaled(70, 1500)
+    n_rand = ctx.scaled(70, 1800)
     n_casadi = ctx.scaled(6, 120)
     n_arg = ctx.scaled(9, 60)
     n_und = ctx.scaled(2, 12)
